@@ -65,13 +65,13 @@ func precedenceTable(p *core.Prog) (map[string]int64, error) {
 func c03(c *core.Check) {
 	p := c.Prog
 	c.Explain = "Structural necessary conditions of the cascade order, decided on the type-checked source: the origin/importance table folded over its finite domain, weight.Less and Specificity.Less folded over every ordering of the compared components, every write into a cascaded style guarded by that comparison, the style-attribute weight above every selector weight, sheet order and origins, and media-filtered rules reached only through a true media test. Does not decide that selectors match (C05) nor source order inside one sheet."
-	rArgs := c.Rule("R8", "no call passes two same-typed arguments under each other's parameter names (swapped arguments): every pair of arguments named after the callee's parameters is aligned with them", 4)
+	rArgs := c.Rule("R8", "no call passes two same-typed arguments under each other's parameter names (swapped arguments): every pair of arguments named after the callee's parameters is aligned with them", 7)
 	argNameRule(c, rArgs, "html/tree", nil, 6)
 	c03Nesting(c)
 	c.Assume = []string{"specificity components stay below 2^30", "go/ssa lowering of the analysed functions is faithful"}
 
 	// ---- R1 precedence table
-	r1 := c.Rule("R1", "declarationPrecedence, folded on {user agent,user,author}x{normal,important}, is strictly increasing in the CSS 2.1 §6.4.1 order: UA < user < author < author!important < user!important", 4)
+	r1 := c.Rule("R1", "declarationPrecedence, folded on {user agent,user,author}x{normal,important}, is strictly increasing in the CSS 2.1 §6.4.1 order: UA < user < author < author!important < user!important", 5)
 	tbl, err := precedenceTable(p)
 	if err != nil {
 		r1.Unknown("html/tree.declarationPrecedence", "-", err.Error())
@@ -302,15 +302,15 @@ func c03(c *core.Check) {
 	}
 
 	// ---- R4 style attribute outranks selectors; presentational hints are author/zero
-	r4 := c.Rule("R4", "the weight given to a style-attribute declaration is above weight{precedence(author,imp), s} for every selector specificity s and below the next origin level; presentational hints carry specificity {0,0,0}", 2)
+	r4 := c.Rule("R4", "the weight given to a style-attribute declaration is above weight{precedence(author,imp), s} for every selector specificity s and below the next origin level; presentational hints carry specificity {0,0,0}", 3)
 	c03StyleAttr(c, r4, tbl)
 
 	// ---- R5 sheet order and origins
-	r5 := c.Rule("R5", "in GetAllComputedStyles the sheets are appended UA, (forms UA), presentational hints (author, {0,0,0}), author sheets (author), user sheets (user), in that order", 5)
+	r5 := c.Rule("R5", "in GetAllComputedStyles the sheets are appended UA, (forms UA), presentational hints (author, {0,0,0}), author sheets (author), user sheets (user), in that order", 8)
 	c03Sheets(c, r5)
 
 	// ---- R6 filtered blocks never apply
-	r6 := c.Rule("R6", "the bodies of @media, @import and <link>/<style media> are processed only on paths where evaluateMediaQuery returned true; a rule is added to the matcher only when its selector parsed without error; the device media type is passed on unchanged to nested and imported sheets", 4)
+	r6 := c.Rule("R6", "the bodies of @media, @import and <link>/<style media> are processed only on paths where evaluateMediaQuery returned true; a rule is added to the matcher only when its selector parsed without error; the device media type is passed on unchanged to nested and imported sheets", 16)
 	c03Media(c, r6)
 
 	// ---- R7 every selector of a list is tested
@@ -752,76 +752,88 @@ func c03Sheets(c *core.Check, r *core.Rule) {
 func c03Media(c *core.Check, r *core.Rule) {
 	p := c.Prog
 	eval := p.Fn("html/tree", "evaluateMediaQuery")
-	newCSS := p.Fn("html/tree", "newCSS")
-	pre := p.Fn("html/tree", "preprocessStylesheet")
-	find := p.Fn("html/tree", "findStylesheets")
-	if eval == nil || newCSS == nil || pre == nil || find == nil {
-		r.Anchor("html/tree.evaluateMediaQuery / newCSS / preprocessStylesheet / findStylesheets")
+	if eval == nil || len(eval.Params) != 2 {
+		r.Anchor("html/tree.evaluateMediaQuery(queryList, deviceMediaType)")
 		return
 	}
-	guarded := func(fn *ssa.Function, target *ssa.Function, what string) {
-		core.Instrs(fn, func(in ssa.Instruction) {
-			call, ok := in.(*ssa.Call)
-			if !ok || call.Common().StaticCallee() != target {
-				return
+	// the media family: the functions of html/tree with a parameter that flows (possibly defaulted: a phi with a constant) into the second
+	// argument of evaluateMediaQuery, directly or through another member (least fixed point; no names involved).
+	media := map[*ssa.Function]int{eval: 1}
+	var fns []*ssa.Function
+	for _, fn := range p.FuncsOfPkg("html/tree") {
+		if fn.Blocks != nil {
+			fns = append(fns, fn)
+		}
+	}
+	for changed := true; changed; {
+		changed = false
+		for _, fn := range fns {
+			if _, ok := media[fn]; ok {
+				continue
 			}
-			var atoms []ssa.Value
-			for _, a := range core.CondAtoms(fn) {
-				if _, ok := core.CallTo(a, eval); ok {
-					atoms = append(atoms, a)
+			core.Instrs(fn, func(in ssa.Instruction) {
+				call, ok := in.(*ssa.Call)
+				if !ok {
+					return
 				}
-			}
-			key := core.FuncName(fn) + " | " + what
-			ok2, _ := core.GuardedBy(fn, call.Block(), atoms, func(m map[ssa.Value]bool) bool {
-				for _, v := range m {
-					if v {
-						return true
+				ti, ok := media[call.Common().StaticCallee()]
+				if !ok || ti >= len(call.Call.Args) {
+					return
+				}
+				for i, par := range fn.Params {
+					par := par
+					if core.DerivesFrom(call.Call.Args[ti], func(v ssa.Value) bool { return v == ssa.Value(par) }) {
+						if _, done := media[fn]; !done {
+							media[fn] = i
+							changed = true
+						}
 					}
 				}
-				return false
 			})
-			r.Cond(ok2 && len(atoms) > 0, key, p.Pos(call.Pos()), "reachable only after evaluateMediaQuery(...) returned true",
-				"a path reaches this call without a true evaluateMediaQuery(...) test: rules of a non-matching medium would apply")
-		})
-	}
-	guarded(pre, pre, "@media body → preprocessStylesheet")
-	guarded(pre, newCSS, "@import → newCSS")
-	guarded(find, newCSS, "<style>/<link> → newCSS")
-	// the device media type reaches nested sheets unchanged
-	mediaParam := func(fn *ssa.Function) *ssa.Parameter {
-		for _, par := range fn.Params {
-			if par.Name() == "deviceMediaType" || par.Name() == "mediaType" {
-				return par
-			}
 		}
-		return nil
 	}
-	plumb := func(fn, target *ssa.Function, what string) {
-		src, dst := mediaParam(fn), mediaParam(target)
-		if src == nil || dst == nil {
-			r.Anchor("deviceMediaType parameter of " + fn.Name() + " / " + target.Name())
-			return
+	if len(media) < 6 {
+		r.Anchor(fmt.Sprintf("media family of html/tree: %d functions found, at least 6 confirmed by reading (evaluateMediaQuery, preprocessStylesheet, preprocessStylesheetImports, newCSS, newCSSImports, findStylesheets)", len(media)))
+		return
+	}
+	// (a) a function that tests media queries reaches its nested sheets only after a true test
+	// (b) every call between two members hands on the caller's own device media type
+	for _, fn := range fns {
+		si, member := media[fn]
+		if !member {
+			continue
 		}
-		di := -1
-		for i, q := range target.Params {
-			if q == dst {
-				di = i
+		var atoms []ssa.Value
+		for _, a := range core.CondAtoms(fn) {
+			if _, ok := core.CallTo(a, eval); ok {
+				atoms = append(atoms, a)
 			}
 		}
 		core.Instrs(fn, func(in ssa.Instruction) {
 			call, ok := in.(*ssa.Call)
-			if !ok || call.Common().StaticCallee() != target {
+			if !ok {
 				return
 			}
-			fromParam := core.DerivesFrom(call.Call.Args[di], func(v ssa.Value) bool { return v == ssa.Value(src) })
-			r.Cond(fromParam, core.FuncName(fn)+" | "+what+" keeps the device media type", p.Pos(call.Pos()), "the callee receives this function's deviceMediaType", "the nested sheet is processed for a different media type than the document's: its @media blocks are filtered wrongly")
+			target := call.Common().StaticCallee()
+			ti, ok := media[target]
+			if !ok || ti >= len(call.Call.Args) {
+				return
+			}
+			if target != eval && len(atoms) > 0 {
+				ok2, _ := core.GuardedBy(fn, call.Block(), atoms, func(m map[ssa.Value]bool) bool {
+					for _, v := range m {
+						if v {
+							return true
+						}
+					}
+					return false
+				})
+				r.Cond(ok2, core.FuncName(fn)+" | nested sheet → "+target.Name(), p.Pos(call.Pos()), "reachable only after evaluateMediaQuery(...) returned true",
+					"a path reaches this call without a true evaluateMediaQuery(...) test: rules of a non-matching medium would apply")
+			}
+			fromParam := core.DerivesFrom(call.Call.Args[ti], func(v ssa.Value) bool { return v == ssa.Value(fn.Params[si]) })
+			r.Cond(fromParam, core.FuncName(fn)+" | "+target.Name()+" keeps the device media type", p.Pos(call.Pos()), "the callee receives this function's device media type", "the nested sheet (or the query) is evaluated for a different media type than the document's: its @media blocks are filtered wrongly")
 		})
-	}
-	plumb(pre, pre, "@media body")
-	plumb(pre, newCSS, "@import")
-	plumb(find, newCSS, "<style>/<link>")
-	if nc := newCSS; nc != nil {
-		plumb(nc, pre, "newCSS → preprocessStylesheet")
 	}
 
 	// evaluateMediaQuery returns true only for "all" or the device medium
@@ -875,64 +887,74 @@ func c03Media(c *core.Check, r *core.Rule) {
 		return
 	}
 	matchObj := p.Obj("html/tree", "match")
-	core.Instrs(pre, func(in ssa.Instruction) {
-		// the store of the appended matcher slice: *matcher = append(*matcher, match{...})
-		call, ok := in.(*ssa.Call)
-		if !ok {
-			return
+	appends := 0
+	for _, pre := range fns {
+		if _, member := media[pre]; !member {
+			continue
 		}
-		b, ok := call.Common().Value.(*ssa.Builtin)
-		if !ok || b.Name() != "append" || matchObj == nil {
-			return
-		}
-		sl, ok := call.Type().Underlying().(*types.Slice)
-		if !ok || !types.Identical(sl.Elem(), matchObj.Type()) {
-			return
-		}
-		// atoms: err != nil where err derives from the PreprocessDeclarationsPrelude call
-		var atoms []ssa.Value
-		pol := map[ssa.Value]bool{} // true when atom true means "error present"
-		for _, a := range core.CondAtoms(pre) {
-			bo, ok := a.(*ssa.BinOp)
-			if !ok || (bo.Op != token.NEQ && bo.Op != token.EQL) {
-				continue
+		core.Instrs(pre, func(in ssa.Instruction) {
+			// the store of the appended matcher slice: *matcher = append(*matcher, match{...})
+			call, ok := in.(*ssa.Call)
+			if !ok {
+				return
 			}
-			isNil := func(v ssa.Value) bool { k, ok := v.(*ssa.Const); return ok && k.Value == nil }
-			var other ssa.Value
-			if isNil(bo.Y) {
-				other = bo.X
-			} else if isNil(bo.X) {
-				other = bo.Y
-			} else {
-				continue
+			b, ok := call.Common().Value.(*ssa.Builtin)
+			if !ok || b.Name() != "append" || matchObj == nil {
+				return
 			}
-			if core.DerivesFrom(other, func(v ssa.Value) bool { _, ok := core.CallTo(v, ppd); return ok }) {
-				// only the direct extract (not the phi with later errors) identifies the selector error
-				if ex, ok := other.(*ssa.Extract); ok {
-					if _, ok := core.CallTo(ex.Tuple, ppd); ok {
-						atoms = append(atoms, a)
-						pol[a] = bo.Op == token.NEQ
+			sl, ok := call.Type().Underlying().(*types.Slice)
+			if !ok || !types.Identical(sl.Elem(), matchObj.Type()) {
+				return
+			}
+			appends++
+			// atoms: err != nil where err derives from the PreprocessDeclarationsPrelude call
+			var atoms []ssa.Value
+			pol := map[ssa.Value]bool{} // true when atom true means "error present"
+			for _, a := range core.CondAtoms(pre) {
+				bo, ok := a.(*ssa.BinOp)
+				if !ok || (bo.Op != token.NEQ && bo.Op != token.EQL) {
+					continue
+				}
+				isNil := func(v ssa.Value) bool { k, ok := v.(*ssa.Const); return ok && k.Value == nil }
+				var other ssa.Value
+				if isNil(bo.Y) {
+					other = bo.X
+				} else if isNil(bo.X) {
+					other = bo.Y
+				} else {
+					continue
+				}
+				if core.DerivesFrom(other, func(v ssa.Value) bool { _, ok := core.CallTo(v, ppd); return ok }) {
+					// only the direct extract (not the phi with later errors) identifies the selector error
+					if ex, ok := other.(*ssa.Extract); ok {
+						if _, ok := core.CallTo(ex.Tuple, ppd); ok {
+							atoms = append(atoms, a)
+							pol[a] = bo.Op == token.NEQ
+						}
 					}
 				}
 			}
-		}
-		ok2, _ := core.GuardedBy(pre, call.Block(), atoms, func(m map[ssa.Value]bool) bool {
-			for a, v := range m {
-				if v != pol[a] { // error absent
-					return true
+			ok2, _ := core.GuardedBy(pre, call.Block(), atoms, func(m map[ssa.Value]bool) bool {
+				for a, v := range m {
+					if v != pol[a] { // error absent
+						return true
+					}
 				}
-			}
-			return false
+				return false
+			})
+			r.Cond(ok2 && len(atoms) > 0, "matcher append only for rules whose selector parsed", p.Pos(call.Pos()),
+				"append(*matcher, …) is reachable only with a nil error from PreprocessDeclarationsPrelude", "a rule with an invalid selector can reach the matcher")
 		})
-		r.Cond(ok2 && len(atoms) > 0, "matcher append only for rules whose selector parsed", p.Pos(call.Pos()),
-			"append(*matcher, …) is reachable only with a nil error from PreprocessDeclarationsPrelude", "a rule with an invalid selector can reach the matcher")
-	})
+	}
+	if appends == 0 {
+		r.Anchor("the append to the matcher in the style sheet preprocessing (html/tree)")
+	}
 }
 
 // c03Nesting: nested rules (CSS Nesting) as preprocessed by validation.PreprocessDeclarationsPrelude.
 func c03Nesting(c *core.Check) {
 	p := c.Prog
-	r := c.Rule("R9", "nested rules: every selector of a nested rule's list is made relative to the parent on its own (the parent is inserted inside a loop over the comma-separated parts of the nested prelude), and the rule's own declarations are ordered before those of its nested rules (the returned list starts with them)", 2)
+	r := c.Rule("R9", "nested rules: every selector of a nested rule's list is made relative to the parent on its own (the parent is inserted inside a loop over the comma-separated parts of the nested prelude), and the rule's own declarations are ordered before those of its nested rules (the returned list starts with them)", 3)
 	fn := p.Fn("css/validation", "PreprocessDeclarationsPrelude")
 	if fn == nil {
 		r.Anchor("css/validation.PreprocessDeclarationsPrelude")
